@@ -45,6 +45,8 @@ Proof. repeat split. Qed.
 Theorem C04_round_unique : forall f n n', rounds_to f n -> rounds_to f n' -> n = n'.
 Proof. exact rounds_to_unique. Qed.
 Print Assumptions C04_round_unique.
+Example C04_rounds_to_example : rounds_to (FDy 5 (-1)) 2 /\ ~ rounds_to (FDy 5 (-1)) 3.
+Proof. split; cbn; unfold fl_num, fl_den; cbn; [split; [lia|reflexivity]|intros [_ H]; specialize (H eq_refl); discriminate]. Qed.
 
 (* an integer string (accepted by int()) is non-empty and has no decimal point, so the
    float-string branch and the integer-string branch of as_int never overlap *)
@@ -56,17 +58,15 @@ Example C04_int_of_str_example : py_int_of_str (S " -1_000 ") = Ok (-1000)%Z /\ 
 Proof. split; reflexivity. Qed.
 
 (* THE scalar theorem: whatever the documentation says about (engine, scalar type, value),
-   the model does.  Partial: the region of the open defect F22 (v1, a number at a datetime
-   position) is excluded; see C04_datetime_numeric_v1_refuted. *)
-Theorem C04_scalar_ref_partial :
-  forall O e s j r, f22_region e s j = false -> doc_scalar O e s j r -> load_scalar O e s j = r.
+   the model does — for all three engines. *)
+Theorem C04_scalar_ref :
+  forall O e s j r, doc_scalar O e s j r -> load_scalar O e s j = r.
 Proof. exact scalar_ref. Qed.
-Print Assumptions C04_scalar_ref_partial.
+Print Assumptions C04_scalar_ref.
 Example C04_scalar_ref_example O :
   doc_scalar O V0 SInt (JFloat (FDy 5 (-1))) (Ok (VInt 2)) /\
   doc_scalar O V1 SInt (JFloat (FDy 5 (-1))) (Err EValue) /\
-  doc_scalar O Env SBool (JStr (S "oN")) (Ok (VBool true)) /\
-  f22_region V0 SInt (JFloat (FDy 5 (-1))) = false.
+  doc_scalar O Env SBool (JStr (S "oN")) (Ok (VBool true)).
 Proof.
   repeat split.
   - apply d_int_float_round; [reflexivity|]. cbn. split; [lia|reflexivity].
@@ -80,7 +80,7 @@ Theorem C04_int_v0 :
   forall O e j r, is_v1 e = false -> doc_scalar O e SInt j r ->
   rmap VInt (as_int O j) = r.
 Proof.
-  intros O e j r He H. rewrite <- (scalar_ref O e SInt j r) by (destruct e, j; try reflexivity; assumption).
+  intros O e j r He H. rewrite <- (scalar_ref O e SInt j r) by assumption.
   destruct e; try discriminate; reflexivity.
 Qed.
 Print Assumptions C04_int_v0.
@@ -89,14 +89,14 @@ Print Assumptions C04_int_v0.
 Theorem C04_int_v1 :
   forall O j r, doc_scalar O V1 SInt j r -> rmap VInt (load_int_v1 O j) = r.
 Proof.
-  intros O j r H. rewrite <- (scalar_ref O V1 SInt j r) by (destruct j; try reflexivity; assumption). reflexivity.
+  intros O j r H. rewrite <- (scalar_ref O V1 SInt j r) by assumption. reflexivity.
 Qed.
 Print Assumptions C04_int_v1.
 
 Theorem C04_str :
   forall O e j r, doc_scalar O e SStr j r -> rmap VStr (as_str O j) = r.
 Proof.
-  intros O e j r H. rewrite <- (scalar_ref O e SStr j r) by (destruct e, j; try reflexivity; assumption). reflexivity.
+  intros O e j r H. rewrite <- (scalar_ref O e SStr j r) by assumption. reflexivity.
 Qed.
 Print Assumptions C04_str.
 
@@ -110,45 +110,33 @@ Print Assumptions C04_datetime_z_suffix.
 Example C04_datetime_z_example : z_rewrite (S "2020-01-02T03:04:05Z") = S "2020-01-02T03:04:05+00:00".
 Proof. reflexivity. Qed.
 
-(* default engine and Env: a number at a datetime position goes to fromtimestamp(x, tz=utc);
-   bool is not a number *)
+(* every engine: a number at a datetime position goes to fromtimestamp(x, tz=utc);
+   bool is not a number for the default engine and Env *)
 Theorem C04_datetime_numeric_utc :
-  forall O e j x, is_v1 e = false -> as_number j = Some x ->
+  forall O e j x, as_number j = Some x ->
   load_scalar O e SDateTime j = rmap VDateTime (o_dt_fromts O true x).
 Proof.
-  intros O e j x He Hx. destruct j; try discriminate; injection Hx as <-; destruct e; try discriminate; reflexivity.
+  intros O e j x Hx. destruct j; try discriminate; injection Hx as <-; destruct e; reflexivity.
 Qed.
 Print Assumptions C04_datetime_numeric_utc.
+Example C04_as_number_example :
+  as_number (JInt (-1)) = Some (NInt (-1)) /\ as_number (JFloat (FDy 3 (-1))) = Some (NFloat (FDy 3 (-1))) /\
+  as_number (JBool true) = None /\ as_number (JStr (S "1")) = None.
+Proof. repeat split. Qed.
 
-(* v1: the same number goes to fromtimestamp(x, None) — what the pinned code does (F22) *)
-Theorem C04_datetime_numeric_v1_partial :
+(* v1 (after the repair of F35, commit 666094c): the tz argument of as_datetime_v1 is utc, for
+   whatever oracle answers — in particular never the naive local fromtimestamp(x, None) *)
+Theorem C04_datetime_numeric_v1 :
   forall O j x, as_number j = Some x ->
-  load_scalar O V1 SDateTime j = rmap VDateTime (o_dt_fromts O false x).
+  load_scalar O V1 SDateTime j = rmap VDateTime (o_dt_fromts O true x).
 Proof. intros O j x Hx. destruct j; try discriminate; injection Hx as <-; reflexivity. Qed.
-Print Assumptions C04_datetime_numeric_v1_partial.
-
-(* ... which is not the documented (UTC) result as soon as the builtin answers differently
-   for tz=utc and tz=None: witness 0 with the answers of the real fromtimestamp. *)
-Definition f22_oracles : oracles :=
-  {| o_float_of_str := fun _ => Err EMissing; o_str := fun _ => Err EMissing;
-     o_dt_iso := fun _ => Err EMissing; o_date_iso := fun _ => Err EMissing; o_time_iso := fun _ => Err EMissing;
-     o_dt_fromts := fun utc _ => Ok (if utc then S "1970-01-01T00:00:00+00:00" else S "1970-01-01T00:00:00");
-     o_date_fromts := fun _ => Err EMissing; o_timeparse := fun _ => Err EMissing;
-     o_timedelta := fun _ => Err EMissing; o_decimal := fun _ => Err EMissing;
-     o_b64 := fun _ => Err EMissing; o_json := fun _ => Err EMissing |}.
-Theorem C04_datetime_numeric_v1_refuted :
-  exists O j r, doc_scalar O V1 SDateTime j r /\ load_scalar O V1 SDateTime j <> r.
-Proof.
-  exists f22_oracles, (JInt 0), (rmap VDateTime (o_dt_fromts f22_oracles true (NInt 0))).
-  split; [exact (d_dt_int f22_oracles V1 0)|]. vm_compute. discriminate.
-Qed.
-Print Assumptions C04_datetime_numeric_v1_refuted.
+Print Assumptions C04_datetime_numeric_v1.
 
 (* EnvWizard: digit strings at a datetime position are timestamps (UTC) *)
 Theorem C04_datetime_env_numeric_string :
   forall O s f, numeric_doc s = true -> o_float_of_str O s = Ok f ->
   load_scalar O Env SDateTime (JStr s) = rmap VDateTime (o_dt_fromts O true (NFloat f)).
-Proof. intros O s f Hn Hf. exact (scalar_ref O Env SDateTime _ _ eq_refl (d_dt_env_numstr O s f Hn Hf)). Qed.
+Proof. intros O s f Hn Hf. exact (scalar_ref O Env SDateTime _ _ (d_dt_env_numstr O s f Hn Hf)). Qed.
 Print Assumptions C04_datetime_env_numeric_string.
 Example C04_numeric_doc_example : numeric_doc (S "1651077045") = true /\ numeric_doc (S "1.23") = true /\ numeric_doc (S "1.2.3") = false /\ numeric_doc (S ".") = false.
 Proof. repeat split. Qed.
@@ -176,7 +164,7 @@ Print Assumptions C04_timedelta_dispatch.
 Theorem C04_enum :
   forall O e ms j r, doc_scalar O e (SEnum ms) j r -> rmap VEnum (enum_lookup ms j) = r.
 Proof.
-  intros O e ms j r H. rewrite <- (scalar_ref O e (SEnum ms) j r) by (destruct e, j; try reflexivity; assumption). reflexivity.
+  intros O e ms j r H. rewrite <- (scalar_ref O e (SEnum ms) j r) by assumption. reflexivity.
 Qed.
 Print Assumptions C04_enum.
 Example C04_enum_example O :
@@ -185,7 +173,7 @@ Proof. apply d_enum_int. intros v n [H|[]]. now injection H as <- <-. Qed.
 
 Theorem C04_decimal :
   forall O e j r, doc_scalar O e SDecimal j r -> load_scalar O e SDecimal j = r.
-Proof. intros O e j r H. apply scalar_ref; [destruct e, j; reflexivity|assumption]. Qed.
+Proof. intros O e j r H. apply scalar_ref; assumption. Qed.
 Print Assumptions C04_decimal.
 
 (* THE lifting theorem: for every engine, every container context c (Optional, list,
@@ -204,21 +192,21 @@ Example C04_everywhere_example O :
   = Some (Ok (VDict [(VStr (S "a"), VList [VNone; VInt 7; VInt 2])])).
 Proof. reflexivity. Qed.
 
-(* ... and with the DOCUMENTED scalar coercion at the hole (outside the F22 region) the
-   documented result is what the model loads, at every nesting depth *)
+(* ... and with the DOCUMENTED scalar coercion at the hole the documented result is what the
+   model loads, at every nesting depth *)
 Theorem C04_everywhere_ref :
   forall O e c s (g : jv -> option (res pv)),
-  (forall j r, g j = Some r -> doc_scalar O e s j r /\ f22_region e s j = false) ->
+  (forall j r, g j = Some r -> doc_scalar O e s j r) ->
   forall j R, lift O e c g j = Some R -> load O e (plug c (TS s)) j = R.
 Proof. exact everywhere_ref. Qed.
 Print Assumptions C04_everywhere_ref.
 Example C04_everywhere_ref_example O :
   let g := fun j => match j with JStr s => Some (Ok (VBool (doc_truthy s))) | _ => None end in
-  (forall j r, g j = Some r -> doc_scalar O Env SBool j r /\ f22_region Env SBool j = false) /\
+  (forall j r, g j = Some r -> doc_scalar O Env SBool j r) /\
   lift O Env (CList CHole) g (JStr (S "yes, no ,ON")) = Some (Ok (VList [VBool true; VBool false; VBool true])).
 Proof.
   split; [|reflexivity]. intros j r H. destruct j; try discriminate. injection H as <-.
-  split; [apply d_bool_str|reflexivity].
+  apply d_bool_str.
 Qed.
 
 (* EnvWizard: a string that does not start with '[' splits on ',' and every piece is stripped;
@@ -229,6 +217,11 @@ Theorem C04_env_split :
   as_list O (JStr s) = Ok (JList (map (fun w => JStr (strip w)) (split_on ","%char s))).
 Proof. exact env_split. Qed.
 Print Assumptions C04_env_split.
+Example C04_env_split_example O :
+  first_is "["%char (lstrip (S "  first_user@abc.com ,  second-user@xyz.org")) = false /\
+  as_list O (JStr (S "  first_user@abc.com ,  second-user@xyz.org")) =
+    Ok (JList [JStr (S "first_user@abc.com"); JStr (S "second-user@xyz.org")]).
+Proof. split; reflexivity. Qed.
 
 Theorem C04_env_split_dict :
   forall O s d, first_is "{"%char (lstrip s) = false ->
@@ -242,7 +235,7 @@ Example C04_env_split_dict_example :
   distinct_keys [(S "sharpened", JStr (S "Y")); (S "uses_left", JStr (S "3"))] = true.
 Proof. split; reflexivity. Qed.
 
-(* open defect F23: EnvWizard checks the element count of a fixed-arity tuple against len()
+(* open defect F36: EnvWizard checks the element count of a fixed-arity tuple against len()
    of the raw string, so the shorthand string whose split list loads fine is rejected *)
 Theorem C04_env_tuple_refuted :
   forall O,
